@@ -711,3 +711,99 @@ def _st(node):
     while n is not None and not isinstance(n, ast.stmt):
         n = getattr(n, '_parent', None)
     return n
+
+
+@obligation('C07-m', 'T1 T5 T7', 'adaptive-threshold SMC round state machine: every batch goes to '
+            'the inner sampler; a finished round is extracted; while rounds remain the next '
+            'quantile is adapted and, below the stopping quantile, the population is recorded, '
+            'the round index advanced and the next round initialised, in this order', floor=8,
+            necessary='a population recorded on the wrong side of a test, a round index that '
+                      'moves without its population, or a next round initialised before the index '
+                      'advanced gives populations that do not belong to their thresholds')
+def c07_m(ctx):
+    cls = ctx.cls('elfi.methods.inference.samplers:AdaptiveThresholdSMC')
+    up = ctx.own_method(cls, 'update')
+    ex = ctx.ex(up)
+    g = cfg_of(up)
+    ROUND = "self.state['round']"
+    sup = [c for c in ctx.calls(up) if isinstance(c.func, ast.Attribute) and
+           c.func.attr == 'update' and isinstance(c.func.value, ast.Call) and
+           callee_name(c.func.value) == 'super']
+    inner = ctx.calls(up, 'self._rejection.update(*_)')
+    for (cs, label) in ((sup, 'framework update'), (inner, 'inner sampler update')):
+        ok = len(cs) == 1 and [ex.term(a) for a in cs[0].args] == [('param', up.params[1]),
+                                                                     ('param', up.params[2])] \
+            and g.must_pass([ctx.node(up, _st(cs[0]))])
+        ctx.check(ok, up, label + ' receives (batch, batch_index) on every path',
+                  'update(batch, batch_index)',
+                  'the {} is not called with (batch, batch_index) for every batch'.format(label),
+                  fn=up, node=cs[0] if cs else up.node)
+    fin = pattern('self._rejection.finished')
+    more = pattern("{} < self.objective['round']".format(ROUND))
+    below = pattern('self._quantiles[{} + 1] < self.q_threshold'.format(ROUND))
+
+    def under(node, pats, absent=()):
+        gs = ctx.guards(up, node)
+        facts = [t for (t, pol, _) in gs if pol and t[0] != 'bool']
+        anyp = [t for (t, pol, _) in gs]
+        return all(any(match(t, p) is not None for t in facts) for p in pats) and \
+            not any(match(t, p) is not None for t in anyp for p in absent)
+    newp = [s for (s, t, k) in ctx.stores(up, 'self._new_population') if isinstance(s, ast.Assign)]
+    ok = len(newp) == 1 and match(ex.term(newp[0].value),
+                                  pattern('self._extract_population()')) is not None and \
+        under(newp[0], [fin], absent=[more, below])
+    ctx.check(ok, up, 'finished round extracted (every finished round, also the last)',
+              'if rejection.finished: self._new_population = self._extract_population()',
+              'the population of a finished round is not extracted exactly when the inner '
+              'sampler finished', fn=up, node=newp[0] if newp else up.node)
+    adapt = ctx.calls(up, 'self._set_adaptive_quantile()')
+    ok = len(adapt) == 1 and under(_st(adapt[0]), [fin, more], absent=[below]) and bool(newp) and \
+        ctx.must_precede(up, newp, _st(adapt[0]))
+    ctx.check(ok, up, 'next quantile adapted while rounds remain, from the extracted population',
+              'if round < objective[round]: self._set_adaptive_quantile()',
+              'the next quantile is not adapted exactly when another round may follow, after '
+              'the finished population was extracted', fn=up, node=adapt[0] if adapt else up.node)
+    app = ctx.calls(up, 'self._populations.append(_)')
+    inc = [s for (s, t, k) in ctx.stores(up, ROUND)]
+    nxt = ctx.calls(up, 'self._init_new_round()')
+    ok = len(app) == 1 and match(ex.term(app[0].args[0]),
+                                 pattern('self._new_population')) is not None and \
+        under(_st(app[0]), [fin, more, below]) and bool(adapt) and \
+        ctx.must_precede(up, [_st(adapt[0])], _st(app[0]))
+    ctx.check(ok, up, 'population recorded when the adapted quantile is below the stopping quantile',
+              'if quantiles[round + 1] < q_threshold: populations.append(new population)',
+              'the extracted population is not recorded exactly when another round follows '
+              '(rounds remain and the adapted quantile is below the stopping quantile)', fn=up,
+              node=app[0] if app else up.node)
+    ok = len(inc) == 1 and isinstance(inc[0], ast.AugAssign) and isinstance(inc[0].op, ast.Add) \
+        and ex.raw(inc[0].value) == ('const', 1) and under(inc[0], [fin, more, below]) and \
+        bool(app) and ctx.must_precede(up, [_st(app[0])], inc[0])
+    ctx.check(ok, up, 'round index advances by one after the population is recorded',
+              "state['round'] += 1", 'the round index is not advanced by exactly one after the '
+              'population was recorded', fn=up, node=inc[0] if inc else up.node)
+    ok = len(nxt) == 1 and under(_st(nxt[0]), [fin, more, below]) and bool(inc) and \
+        ctx.must_precede(up, [inc[0]], _st(nxt[0]))
+    ctx.check(ok, up, 'next round initialised after the index advanced', '_init_new_round()',
+              'the next round is not initialised after the round index was advanced', fn=up,
+              node=nxt[0] if nxt else up.node)
+    uo = [c for c in ctx.calls(up) if callee_name(c) == alias('_update_objective')]
+    ok = len(uo) == 1 and g.must_pass([ctx.node(up, _st(uo[0]))])
+    ctx.check(ok, up, 'total batch objective refreshed after every batch', '_update_objective()',
+              'the total n_batches objective is not refreshed on every path', fn=up,
+              node=uo[0] if uo else up.node)
+    # the adapted quantile: written for the *next* round, at least 0.05, at most 1
+    sq = ctx.own_method(cls, '_set_adaptive_quantile')
+    exq = ctx.ex(sq)
+    st = [s for (s, t, k) in ctx.stores(sq, 'self._quantiles[_]') if isinstance(s, ast.Assign)]
+    ok = len(st) == 1 and match(exq.term(st[0].targets[0].slice), pattern(ROUND + ' + 1')) \
+        is not None
+    if ok:
+        v = exq.term(st[0].value)
+        m = match_any(v, ('max(1 / _m, 0.05)', 'max(0.05, 1 / _m)'))
+        ok = m is not None and m['m'][0] == 'ifexp' and \
+            match_any(m['m'], ('1.0 if _r < 1.0 else _r', '_r if _r >= 1.0 else 1.0',
+                               '1.0 if _r <= 1.0 else _r', '_r if 1.0 < _r else 1.0')) is not None
+    ctx.check(ok, sq, 'adapted quantile = max(1 / max(ratio, 1), 0.05), stored for the next round',
+              "self._quantiles[round + 1] = max(1 / max_value, 0.05), max_value >= 1",
+              'the adapted quantile is not max(1 / max(estimated ratio, 1), 0.05) stored at the '
+              'next round\'s index', fn=sq, node=st[0] if st else sq.node)
